@@ -68,7 +68,9 @@ func short(k string) string {
 // Universe returns the key universe, list prefixes, after values and limits.
 func Universe(thorough bool) (keys, prefixes, afters []string, limits []int) {
 	long := "z/" + strings.Repeat("k", 253)
-	keys = []string{"a", "ab", "a/b", "a/b/c", "a/c", "d/x.temp", "é/ü"}
+	// "a/b/" is a key that ends in a slash: it equals one of the listed prefixes, so the
+	// listing of that prefix has the empty string as a child
+	keys = []string{"a", "ab", "a/b", "a/b/c", "a/c", "d/x.temp", "é/ü", "a/b/"}
 	if thorough {
 		keys = append(keys, long, "a-b")
 	}
